@@ -105,6 +105,28 @@ let () = iter_lines (fun line ->
   | ["cap"; pol; mc; log] ->
     let bc = two_pow (z log) in
     Printf.printf "%s %s\n" (sz (calc_capacity (z pol) (z mc) bc)) (sz (shift_fn (z pol) (z mc) bc))
+  | "n1" :: "40" :: hh :: ops ->
+    (* the generated BucketLimP4 AddCrt / Remove / Clear (pointer state = two scalars, pool memories = opaque non-null values) *)
+    let h = z hh and mm = z "2" in
+    let s = ref (Gen_P4.pvSetEmpty h (fun _ -> z "0") mm) and ptr = ref (z "0") and stt = ref (z "1") in
+    let next_mem = ref 100 in
+    List.iter (fun o ->
+      let arg = if String.length o > 1 then z (String.sub o 1 (String.length o - 1)) else z "0" in
+      let cnt () = int_of_z (Gen_P4.pvGetCount !s) in
+      match o.[0] with
+      | 'a' -> if cnt () < 4 then begin
+                 let m () = incr next_mem; z (string_of_int !next_mem) in
+                 let pr = z_of_zarith (Z.logand (Z.shift_right (zarith_of_z arg) 8) (Z.of_int 7)) in
+                 (match Gen_P4A.coq_AddCrt h mm !s !ptr !stt arg (z "4") pr (m ()) (m ()) (m ()) (m ()) (m ()) (m ()) (m ()) (m ()) (m ()) (m ()) with
+                  | GenPrelude.Ok (((_, a), p), st) -> s := a; ptr := p; stt := st | _ -> ()) end
+      | 'r' -> let j = int_of_z arg in
+               if j < cnt () then
+                 (match Gen_P4A.coq_Remove h mm !s !ptr !stt !ptr arg with
+                  | GenPrelude.Ok (((_, a), p), st) -> s := a; ptr := p; stt := st | _ -> ())
+      | 'c' -> let ((a, p), st) = Gen_P4A.coq_Clear h mm !s !ptr !stt in s := a; ptr := p; stt := st
+      | _ -> ()) ops;
+    let hn = int_of_string hh in
+    print_endline (String.concat " " ([hh] @ List.init hn (fun i -> sz (!s (z (string_of_int i)))) @ [sz !stt; (if int_of_z !ptr = 0 then "0" else "1")]))
   | "n1" :: n :: _ :: ops when int_of_string n >= 30 ->
     (* the generated BucketOpen2N2 byte operations (symbolic maxCount = n - 30) *)
     let m = int_of_string n - 30 in
